@@ -208,6 +208,7 @@ class Gen:
         self.size = size or rng.choice([10, 14, 18, 24])
         self.hostile = hostile
         self.max_dec = max_dec
+        self.hard_max_dec = max_dec
         self.helpers = {}
         self.classes = {}
         self.call_sites = {}
@@ -290,6 +291,80 @@ class Gen:
         self.emit(f"def wrap_{u}(x):", kind="method", name="wrap", params=["x"])
         self.emit(f"    r = ident_{u}(x)", kind="def", var="r", construct="call-return-in-callee")
         self.emit("    return r")
+        self.emit("")
+        # --- family "nested object modified after it was stored, crossing a call boundary" ------------------------
+        # the stored object is a KA instance: its f1 exists (constructor value) when the reference is stored
+        self.late = {}
+        for name, body in (
+            ("mklate", ["box.o1 = inner", "inner.f1 = v"]),                       # modified through its own variable
+            ("mkalias", ["box.o1 = inner", "al = box.o1", "al.f1 = v"]),          # through an alias read back
+            ("mkearly", ["inner.f1 = v", "box.o1 = inner"]),                       # control: modified before it is stored
+        ):
+            self.emit(f"def {name}_{u}(v):", kind="method", name=name, params=["v"])
+            li = self.emit(f"    inner = KA_{u}()", kind="alloc", var="inner", construct=f"allocation-in-callee:{name}")
+            lb = self.emit(f"    box = KB_{u}()", kind="alloc", var="box", construct=f"allocation-in-callee:{name}")
+            for st in body:
+                tgt = st.split(" = ")[0]
+                if "." in tgt:
+                    self.emit("    " + st, kind="fieldwrite", var=tgt.split(".")[0], construct=f"field-write-in-callee:{name}")
+                else:
+                    self.emit("    " + st, kind="def", var=tgt, construct=f"alias-read-back-in-callee:{name}")
+            self.emit("    return box")
+            self.emit("")
+            self.late[name] = {"box": lb, "inner": li}
+        self.emit(f"def mkdeep_{u}(v):", kind="method", name="mkdeep", params=["v"])     # two levels deep
+        li = self.emit(f"    inner = KA_{u}()", kind="alloc", var="inner", construct="allocation-in-callee:mkdeep")
+        lm = self.emit(f"    mid = KB_{u}()", kind="alloc", var="mid", construct="allocation-in-callee:mkdeep")
+        lb = self.emit(f"    box = KB_{u}()", kind="alloc", var="box", construct="allocation-in-callee:mkdeep")
+        self.emit("    mid.o1 = inner", kind="fieldwrite", var="mid", construct="field-write-in-callee:mkdeep")
+        self.emit("    box.o1 = mid", kind="fieldwrite", var="box", construct="field-write-in-callee:mkdeep")
+        self.emit("    inner.f1 = v", kind="fieldwrite", var="inner", construct="field-write-in-callee:mkdeep")
+        self.emit("    return box")
+        self.emit("")
+        self.late["mkdeep"] = {"box": lb, "mid": lm, "inner": li}
+        self.emit(f"def fill_{u}(box, v):", kind="method", name="fill", params=["box", "v"])  # parameter out-effect
+        li = self.emit(f"    inner = KA_{u}()", kind="alloc", var="inner", construct="allocation-in-callee:fill")
+        self.emit("    box.o1 = inner", kind="fieldwrite", var="box", construct="field-write-in-callee:fill")
+        self.emit("    inner.f1 = v", kind="fieldwrite", var="inner", construct="field-write-in-callee:fill")
+        self.emit("")
+        self.late["fill"] = {"inner": li}
+        # --- family "helper with several exits that writes a field of a parameter object on the different paths without
+        #     re-defining the parameter symbol" ----------------------------------------------------------------------
+        ks = r.sample([1, 2, 3, 4, 5, 7, 8, 10, 11, 12, 20, 25], 10)
+        self.exits = {"set2": ks[0:2], "set3": ks[2:4], "set4": ks[4:6], "set5": ks[6:8], "set6": ks[8:10]}
+        self.emit(f"def set2_{u}(o, c):", kind="method", name="set2", params=["o"])           # alias, body ends in if/else
+        self.emit("    q = o", kind="def", var="q", construct="alias-of-parameter")
+        self.emit("    if c:")
+        self.emit(f"        q.f1 = {ks[0]}", kind="fieldwrite", var="q", construct="field-write-through-alias-of-parameter")
+        self.emit("    else:")
+        self.emit(f"        q.f1 = {ks[1]}", kind="fieldwrite", var="q", construct="field-write-through-alias-of-parameter")
+        self.emit("")
+        self.emit(f"def set3_{u}(o, c):", kind="method", name="set3", params=["o"])           # nested setter, early return
+        self.emit("    if c:")
+        self.emit(f"        setf_{u}(o, {ks[2]})", kind="callstmt", construct="nested-setter-call")
+        self.emit("        return 0")
+        self.emit(f"    setf_{u}(o, {ks[3]})", kind="callstmt", construct="nested-setter-call")
+        self.emit("    return 1")
+        self.emit("")
+        self.emit(f"def set4_{u}(o, c):", kind="method", name="set4", params=["o"])           # control: direct writes
+        self.emit("    if c:")
+        self.emit(f"        o.f1 = {ks[4]}", kind="fieldwrite", var="o", construct="field-write-through-parameter")
+        self.emit("    else:")
+        self.emit(f"        o.f1 = {ks[5]}", kind="fieldwrite", var="o", construct="field-write-through-parameter")
+        self.emit("")
+        self.emit(f"def set5_{u}(o, c):", kind="method", name="set5", params=["o"])           # alias, early return
+        self.emit("    q = o", kind="def", var="q", construct="alias-of-parameter")
+        self.emit("    if c:")
+        self.emit(f"        q.f1 = {ks[6]}", kind="fieldwrite", var="q", construct="field-write-through-alias-of-parameter")
+        self.emit("        return 0")
+        self.emit(f"    q.f1 = {ks[7]}", kind="fieldwrite", var="q", construct="field-write-through-alias-of-parameter")
+        self.emit("    return 1")
+        self.emit("")
+        self.emit(f"def set6_{u}(o, c):", kind="method", name="set6", params=["o"])           # nested setter, if/else at the end
+        self.emit("    if c:")
+        self.emit(f"        setf_{u}(o, {ks[8]})", kind="callstmt", construct="nested-setter-call")
+        self.emit("    else:")
+        self.emit(f"        setf_{u}(o, {ks[9]})", kind="callstmt", construct="nested-setter-call")
         self.emit("")
 
     # ---- atoms ---------------------------------------------------------------------------------------------------
@@ -801,6 +876,80 @@ class Gen:
         self.site(k)
         return True
 
+    def sc_nested_late(self, env):
+        """o = mkX(a); t = o.o1; x = t.f1 — the object stored in o.o1 was modified in the callee after it had been stored."""
+        r, u = self.rng, self.uid
+        variant = r.choice(["mklate", "mklate", "mkalias", "mkalias", "mkdeep", "fill", "fill", "mkearly"])
+        a, ca, _ = self.int_atom(env, maxcard=3, lit_p=0.7)
+        lines = self.late[variant]
+        if variant == "fill":
+            o = self.fresh("o")
+            ln = self.emit(f"{o} = KB_{u}()", kind="alloc", var=o, construct="allocation", cls="KB")
+            box = self.new_obj(env, "inst", "KB", ln, {})
+            self.define(env, o, ("obj", frozenset([box])), 1, "allocation")
+            self.emit(f"fill_{u}({o}, {a})", kind="callstmt", construct="callee-stores-then-modifies:fill", helper="fill")
+        else:
+            o = self.fresh("o")
+            self.emit(f"{o} = {variant}_{u}({a})", kind="def", var=o, construct=f"container-returned:{variant}", helper=variant)
+            box = self.new_obj(env, "inst", "KB", lines["box"], {})
+            self.define(env, o, ("obj", frozenset([box])), 1, f"container-returned:{variant}", srcs=(a,))
+        inner = self.new_obj(env, "inst", "KA", lines["inner"], {"f1": ("int", ca)})
+        self.seq += 1
+        env.hist[inner].append(("f1", "%callee", self.seq))
+        env.ftaint[(inner, "f1")] = self.taint_of(env, a) | frozenset([self.new_def_id(f"late-nested-write:{variant}")])
+        first = inner
+        if variant == "mkdeep":
+            mid = self.new_obj(env, "inst", "KB", lines["mid"], {"o1": (("obj", frozenset([inner])), 1)})
+            env.hist[mid].append(("o1", "%callee", self.seq))
+            first = mid
+        env.fields[box]["o1"] = (("obj", frozenset([first])), 1)
+        env.hist[box].append(("o1", "%callee", self.seq))
+        env.ftaint[(box, "o1")] = frozenset([self.new_def_id(f"container-member:{variant}")])
+        cur = o
+        for level in range(2 if variant == "mkdeep" else 1):
+            t = self.fresh("o")
+            target = first if level == 0 else inner
+            tag = f"read-of-stored-object:{variant}"
+            self.emit(f"{t} = {cur}.o1", kind="def", var=t, construct=tag, field="o1")
+            self.define(env, t, ("obj", frozenset([target])), 1, tag, srcs=(cur,))
+            cur = t
+        x = self.fresh()
+        tag = f"nested-field-read-after-late-write:{variant}"
+        self.emit(f"{x} = {cur}.f1", kind="def", var=x, construct=tag, field="f1")
+        self.define(env, x, "int", ca, tag, srcs=(env.ftaint[(inner, "f1")], cur))
+        self.site(variant)
+        self.p.features.add(f"scenario:nested-late:{variant}")
+        if self.c09:
+            self.st_probe(env, x)
+        return True
+
+    def sc_multi_exit(self, env):
+        """o = KB(); setN(o, d[i]); x = o.f1 — the helper has two exits and writes o.f1 on both paths."""
+        if self.p.n_dec >= self.hard_max_dec:
+            return False
+        r, u = self.rng, self.uid
+        variant = r.choice(["set2", "set2", "set3", "set3", "set5", "set6", "set4"])
+        o = self.fresh("o")
+        ln = self.emit(f"{o} = KB_{u}()", kind="alloc", var=o, construct="allocation", cls="KB")
+        oid = self.new_obj(env, "inst", "KB", ln, {})
+        self.define(env, o, ("obj", frozenset([oid])), 1, "allocation")
+        i = self.p.n_dec
+        self.p.n_dec += 1
+        self.emit(f"{variant}_{u}({o}, d[{i}])", kind="callstmt", construct=f"multi-exit-callee-field-write:{variant}", helper=variant, dec=i)
+        env.fields[oid]["f1"] = ("int", 2)
+        self.seq += 1
+        env.hist[oid].append(("f1", "%callee", self.seq))
+        env.ftaint[(oid, "f1")] = frozenset([self.new_def_id(f"multi-exit-callee-field-write:{variant}")])
+        x = self.fresh()
+        tag = f"field-read-after-multi-exit-callee-write:{variant}"
+        self.emit(f"{x} = {o}.f1", kind="def", var=x, construct=tag, field="f1")
+        self.define(env, x, "int", 2, tag, srcs=(env.ftaint[(oid, "f1")], o))
+        self.site(variant)
+        self.p.features.add(f"scenario:multi-exit:{variant}")
+        if self.c09:
+            self.st_probe(env, x)
+        return True
+
     def st_pass(self, env):
         self.emit("pass", kind="noop")
         self.p.features.add("pass")
@@ -843,7 +992,7 @@ class Gen:
                 table = [(self.st_const_int, 12), (self.st_copy, 9), (self.st_binop_int, 12), (self.st_alloc, 7),
                          (self.st_alloc_coll, 4 if not self.c09 else 0), (self.st_field_write, 12), (self.st_field_read, 12),
                          (self.st_elem_write, 4 if not self.c09 else 0), (self.st_elem_read, 4 if not self.c09 else 0),
-                         (self.st_call, 14), (self.st_pass, 2)]
+                         (self.st_call, 14), (self.st_pass, 2), (self.sc_nested_late, 2), (self.sc_multi_exit, 2)]
                 if not self.c09:
                     table += [(self.st_const_str, 10), (self.st_binop_str, 12)]
                 tot = sum(w for _, w in table)
@@ -917,7 +1066,18 @@ class Gen:
         self.st_alloc(env)
         if not self.c09:
             self.st_const_str(env)
-        env = self.block(env, self.size)
+        # the two scripted families are placed between two random halves (each in about 60 % of the programs); one decision
+        # is kept in reserve for the multi-exit helper
+        want_late = self.rng.random() < 0.6
+        want_exits = self.rng.random() < 0.6
+        if want_exits:
+            self.max_dec = self.hard_max_dec - 1
+        env = self.block(env, self.size // 2)
+        todo = [f for f, w in ((self.sc_nested_late, want_late), (self.sc_multi_exit, want_exits)) if w]
+        self.rng.shuffle(todo)
+        for f in todo:
+            f(env)
+        env = self.block(env, self.size - self.size // 2)
         if self.c09:
             for v, t in sorted(env.types.items()):
                 if t == "int" and self.rng.random() < 0.7:
